@@ -1,7 +1,501 @@
 package main
 
-import "cvh/lib"
+import (
+	"fmt"
+	"math/big"
+
+	"cvh/lib"
+
+	fix "github.com/onflow/fixed-point"
+
+	"github.com/onflow/cadence/interpreter"
+)
+
+// ---------------------------------------------------------------- C15: fixed-point arithmetic
+
+type fop struct {
+	Coq, Sym, Sat string
+}
+
+var fops = []fop{
+	{"FAdd", "+", "saturatingAdd"},
+	{"FSub", "-", "saturatingSubtract"},
+	{"FMul", "*", "saturatingMultiply"},
+	{"FDiv", "/", "saturatingDivide"},
+}
+
+func fixedKinds() []NKind {
+	return []NKind{KindByName("Fix64"), KindByName("UFix64"), KindByName("Fix128"), KindByName("UFix128")}
+}
+
+func satDeclared(k NKind, op fop) bool { return k.Signed || op.Coq != "FDiv" }
+
+func asNumber(v interpreter.Value) interpreter.NumberValue { return v.(interpreter.NumberValue) }
+
+var c15ctx *interpreter.Interpreter
+
+func catchNum(f func() interpreter.Value) (res outcome) {
+	cls, _ := lib.Catch(func() {
+		v := f()
+		if v == nil {
+			res.cls = lib.ECrash
+			return
+		}
+		res.z = ReadBack(v)
+	})
+	if cls != "" {
+		res = outcome{cls: cls}
+	}
+	return
+}
+
+func realArith(k NKind, op fop, a, b *big.Int, sat bool) outcome {
+	return catchNum(func() interpreter.Value {
+		x, y := asNumber(k.Make(a)), asNumber(k.Make(b))
+		switch op.Coq {
+		case "FAdd":
+			if sat {
+				return x.SaturatingPlus(c15ctx, y)
+			}
+			return x.Plus(c15ctx, y)
+		case "FSub":
+			if sat {
+				return x.SaturatingMinus(c15ctx, y)
+			}
+			return x.Minus(c15ctx, y)
+		case "FMul":
+			if sat {
+				return x.SaturatingMul(c15ctx, y)
+			}
+			return x.Mul(c15ctx, y)
+		default:
+			if sat {
+				return x.SaturatingDiv(c15ctx, y)
+			}
+			return x.Div(c15ctx, y)
+		}
+	})
+}
+
+func realMod(k NKind, a, b *big.Int) outcome {
+	return catchNum(func() interpreter.Value { return asNumber(k.Make(a)).Mod(c15ctx, asNumber(k.Make(b))) })
+}
+
+func realNeg(k NKind, a *big.Int) outcome {
+	return catchNum(func() interpreter.Value { return asNumber(k.Make(a)).Negate(c15ctx) })
+}
+
+func realMulDiv(k NKind, a, b, c *big.Int, mode int) outcome {
+	return catchNum(func() interpreter.Value {
+		x := k.Make(a).(interpreter.FixedPointValue)
+		return x.MultiplyDivide(c15ctx, k.Make(b).(interpreter.FixedPointValue), k.Make(c).(interpreter.FixedPointValue), fix.RoundingMode(mode))
+	})
+}
+
+// oracle
+func fitFixed(k NKind, r *big.Int) outcome { return fitKind(k, r) }
+
+func clampFixed(k NKind, r *big.Int) outcome {
+	if r.Cmp(k.Min()) < 0 {
+		return outcome{z: k.Min()}
+	}
+	if r.Cmp(k.Max()) > 0 {
+		return outcome{z: k.Max()}
+	}
+	return outcome{z: r}
+}
+
+// exactArith: the exact rational result of the operation on the numbers a/S, b/S, expressed in units of 1/S
+func exactArith(k NKind, op fop, a, b *big.Int) *big.Rat {
+	S := new(big.Rat).SetInt(k.Factor())
+	x, y := new(big.Rat).SetInt(a), new(big.Rat).SetInt(b)
+	switch op.Coq {
+	case "FAdd":
+		return x.Add(x, y)
+	case "FSub":
+		return x.Sub(x, y)
+	case "FMul":
+		x.Mul(x, y)
+		return x.Quo(x, S)
+	default:
+		x.Mul(x, S)
+		return x.Quo(x, y)
+	}
+}
+
+func oracleArith(k NKind, op fop, a, b *big.Int, sat bool) outcome {
+	if op.Coq == "FDiv" && b.Sign() == 0 {
+		return outcome{cls: lib.EDivZero}
+	}
+	r := roundRat(exactArith(k, op, a, b), 0)
+	if sat {
+		return clampFixed(k, r)
+	}
+	return fitFixed(k, r)
+}
+
+func oracleMulDiv(k NKind, a, b, c *big.Int, mode int) outcome {
+	if c.Sign() == 0 {
+		return outcome{cls: lib.EDivZero}
+	}
+	q := new(big.Rat).SetInt(new(big.Int).Mul(a, b))
+	q.Quo(q, new(big.Rat).SetInt(c))
+	return fitFixed(k, roundRat(q, mode))
+}
+
+// modAllowed: a % b must be a - trunc(a/b)*b, or fail with the error of an out-of-range quotient
+func modAllowed(k NKind, a, b *big.Int, got outcome) (bool, string) {
+	if b.Sign() == 0 {
+		return got.cls == lib.EDivZero, "Err DivZero"
+	}
+	want := new(big.Int).Rem(a, b)
+	if got.cls == "" && got.z.Cmp(want) == 0 {
+		return true, ""
+	}
+	q := oracleArith(k, fops[3], a, b, false)
+	if got.cls != "" && q.cls == got.cls {
+		return true, ""
+	}
+	req := k.Render(want)
+	if q.cls != "" {
+		req += " (or Err " + q.cls + ": the quotient is out of range)"
+	}
+	return false, req
+}
+
+// fixedLattice: boundary values of a fixed-point kind (carried integers)
+func fixedLattice(k NKind) []*big.Int {
+	seen := map[string]bool{}
+	var out []*big.Int
+	add := func(z *big.Int) {
+		if !k.InRange(z) || seen[z.String()] {
+			return
+		}
+		seen[z.String()] = true
+		out = append(out, new(big.Int).Set(z))
+	}
+	pm := func(z *big.Int) {
+		for _, d := range []int64{-1, 0, 1} {
+			w := new(big.Int).Add(z, big.NewInt(d))
+			add(w)
+			add(new(big.Int).Neg(w))
+		}
+	}
+	S := k.Factor()
+	for _, i := range []int64{0, 1, 2, 3, 5, 7, 10} {
+		pm(big.NewInt(i))
+	}
+	pm(S)                                      // 1.0
+	pm(new(big.Int).Mul(S, big.NewInt(2)))     // 2.0
+	pm(new(big.Int).Quo(S, big.NewInt(2)))     // 0.5
+	pm(new(big.Int).Quo(S, big.NewInt(3)))     // 0.333..
+	pm(new(big.Int).Mul(S, big.NewInt(10)))    // 10.0
+	pm(new(big.Int).Sqrt(S))                   // sqrt of one unit product
+	pm(new(big.Int).Sqrt(new(big.Int).Mul(k.Max(), S))) // squares straddle the maximum
+	pm(new(big.Int).Quo(k.Max(), big.NewInt(2)))
+	pm(new(big.Int).Quo(k.Max(), S))
+	pm(new(big.Int).Mul(new(big.Int).Quo(k.Max(), S), S)) // largest integer
+	for _, b := range []*big.Int{k.Min(), k.Max()} {
+		for _, d := range []int64{-2, -1, 0, 1, 2} {
+			add(new(big.Int).Add(b, big.NewInt(d)))
+		}
+	}
+	for _, e := range []int{31, 32, 63, 64, 127} {
+		pm(two(e))
+	}
+	return out
+}
+
+func randFixed(k NKind, rng *lib.Rng) *big.Int { return rng.BigBetween(k.Min(), k.Max()) }
 
 func c15(sum *lib.Summary) {
-	panic("C15 not built yet")
+	rng := lib.NewRng(*seed)
+	c15ctx = lib.NewInterp(nil)
+	cw := &lib.CaseWriter{Dir: *dir, Prefix: "cases_C15", Header: "From CV Require Import C15.Cases.",
+		ElemType: "c15case", CheckFn: "check_c15", PerFile: 700}
+	nrand, nstraddle, ntriple, nscript := 250, 120, 500, 140
+	coqEvery := 170
+	if *tier == "thorough" {
+		nrand, nstraddle, ntriple, nscript = 40000, 8000, 60000, 3000
+		coqEvery = 60
+	}
+	sum.Rule = "Fix64, UFix64, Fix128, UFix128 x {+,-,*,/,%, negate, saturatingAdd/Subtract/Multiply/Divide (as declared by sema), multiplyDivide x 4 rounding rules, < <= > >= ==}: " +
+		"all pairs of a boundary lattice (0, +-1..3 units, +-0.5, +-1.0, +-2.0, +-10.0, sqrt(max) and sqrt(unit) neighbours, largest integer, max/2, min, max, +-1, 2^31..2^127 neighbours), " +
+		"random pairs of varied bit length, pairs whose product / quotient / sum straddles the range, divisors near zero; multiplyDivide on lattice and random triples, exact-half cases (a = c/2, b odd), " +
+		"triples whose result straddles the range. Every case: real value method vs big.Rat oracle of the property; every k-th case also through the Coq model (library = assumed behaviour) and Coq spec " +
+		"(vm_compute); a sample as scripts in interpreter and VM. non-trivial = fails, saturates, or drops digits (inexact product/quotient); distinct = distinct (type, op, operands, rule)"
+	distinct := map[string]bool{}
+	n := 0
+	toCoq := func(force bool) bool { n++; return force || n%coqEvery == 0 }
+	note := func(key string, nontrivial bool, sample map[string]string) {
+		sum.Evaluations++
+		if nontrivial && !distinct[key] {
+			distinct[key] = true
+			sum.DistinctNontrivial++
+			sum.Sample(sample)
+		}
+	}
+	type scr struct {
+		k    NKind
+		src  string
+		want outcome
+	}
+	var scripts []scr
+	lit := func(k NKind, z *big.Int) string { return k.Render(z) }
+
+	arith := func(k NKind, op fop, a, b *big.Int, force bool) {
+		for _, sat := range []bool{false, true} {
+			if sat && !satDeclared(k, op) {
+				continue
+			}
+			got := realArith(k, op, a, b, sat)
+			want := oracleArith(k, op, a, b, sat)
+			name := op.Sym
+			ctor := "CArith"
+			if sat {
+				name = op.Sat
+				ctor = "CSat"
+			}
+			sum.Count(k.Name + " " + name)
+			inexact := (op.Coq == "FMul" || op.Coq == "FDiv") && b.Sign() != 0 && !exactArith(k, op, a, b).IsInt()
+			plain := oracleArith(k, op, a, b, false)
+			note(fmt.Sprintf("%s %s %s %s", k.Name, name, a, b), plain.cls != "" || inexact,
+				map[string]string{"type": k.Name, "expr": fmt.Sprintf("%s %s %s", lit(k, a), name, lit(k, b)), "observed": renderOutcome(k, got)})
+			if !got.eq(want) {
+				sum.Fail(fmt.Sprintf("fix-arith:%s:%s", k.Name, name),
+					fmt.Sprintf("%s: %s %s %s = %s, required %s", k.Name, lit(k, a), name, lit(k, b), renderOutcome(k, got), renderOutcome(k, want)),
+					map[string]any{"type": k.Name, "op": name, "a": lit(k, a), "b": lit(k, b), "observed": renderOutcome(k, got), "required": renderOutcome(k, want)})
+			}
+			if toCoq(force) {
+				cw.Add(fmt.Sprintf("%s %s %s %s %s %s %s", ctor, k.CoqKind(), op.Coq, lib.Z(a), lib.Z(b), got.coq(), want.coq()),
+					map[string]any{"type": k.Name, "op": name, "a": lit(k, a), "b": lit(k, b), "observed": renderOutcome(k, got), "oracle": renderOutcome(k, want)})
+			}
+			if len(scripts) < 200000 {
+				expr := fmt.Sprintf("a %s b", op.Sym)
+				if sat {
+					expr = fmt.Sprintf("a.%s(b)", op.Sat)
+				}
+				scripts = append(scripts, scr{k, fmt.Sprintf("access(all) fun main(): %s { let a: %s = %s; let b: %s = %s; return %s }", k.Name, k.Name, lit(k, a), k.Name, lit(k, b), expr), got})
+			}
+		}
+	}
+	mod := func(k NKind, a, b *big.Int, force bool) {
+		got := realMod(k, a, b)
+		ok, req := modAllowed(k, a, b, got)
+		sum.Count(k.Name + " %")
+		note(fmt.Sprintf("%s %% %s %s", k.Name, a, b), got.cls != "" || (b.Sign() != 0 && new(big.Int).Rem(a, b).Sign() != 0),
+			map[string]string{"type": k.Name, "expr": fmt.Sprintf("%s %% %s", lit(k, a), lit(k, b)), "observed": renderOutcome(k, got)})
+		if !ok {
+			sum.Fail(fmt.Sprintf("fix-arith:%s:%%", k.Name),
+				fmt.Sprintf("%s: %s %% %s = %s, required %s", k.Name, lit(k, a), lit(k, b), renderOutcome(k, got), req),
+				map[string]any{"type": k.Name, "op": "%", "a": lit(k, a), "b": lit(k, b), "observed": renderOutcome(k, got), "required": req})
+		}
+		if toCoq(force) {
+			cw.Add(fmt.Sprintf("CMod %s %s %s %s", k.CoqKind(), lib.Z(a), lib.Z(b), got.coq()),
+				map[string]any{"type": k.Name, "op": "%", "a": lit(k, a), "b": lit(k, b), "observed": renderOutcome(k, got)})
+		}
+		scripts = append(scripts, scr{k, fmt.Sprintf("access(all) fun main(): %s { let a: %s = %s; let b: %s = %s; return a %% b }", k.Name, k.Name, lit(k, a), k.Name, lit(k, b)), got})
+	}
+	neg := func(k NKind, a *big.Int, coq bool) {
+		got := realNeg(k, a)
+		want := fitFixed(k, new(big.Int).Neg(a))
+		sum.Count(k.Name + " negate")
+		note(fmt.Sprintf("%s neg %s", k.Name, a), want.cls != "", map[string]string{"type": k.Name, "expr": "-(" + lit(k, a) + ")", "observed": renderOutcome(k, got)})
+		if !got.eq(want) {
+			key := fmt.Sprintf("fix-arith:%s:negate", k.Name)
+			if k.Name == "Fix128" && a.Cmp(k.Min()) == 0 && got.cls == lib.EUnderflow {
+				key = "fix-negate-min-error-kind:Fix128"
+			}
+			sum.Fail(key, fmt.Sprintf("%s: -(%s) = %s, required %s", k.Name, lit(k, a), renderOutcome(k, got), renderOutcome(k, want)),
+				map[string]any{"type": k.Name, "op": "negate", "a": lit(k, a), "observed": renderOutcome(k, got), "required": renderOutcome(k, want)})
+		}
+		if coq {
+			cw.Add(fmt.Sprintf("CNeg %s %s %s %s", k.CoqKind(), lib.Z(a), got.coq(), want.coq()),
+				map[string]any{"type": k.Name, "op": "negate", "a": lit(k, a), "observed": renderOutcome(k, got), "oracle": renderOutcome(k, want)})
+		}
+		scripts = append(scripts, scr{k, fmt.Sprintf("access(all) fun main(): %s { let a: %s = %s; return -a }", k.Name, k.Name, lit(k, a)), got})
+	}
+	muldiv := func(k NKind, a, b, c *big.Int, force bool) {
+		for mode := 0; mode < 4; mode++ {
+			got := realMulDiv(k, a, b, c, mode)
+			want := oracleMulDiv(k, a, b, c, mode)
+			sum.Count(k.Name + " multiplyDivide " + modeNames[mode])
+			inexact := c.Sign() != 0 && new(big.Int).Rem(new(big.Int).Mul(a, b), c).Sign() != 0
+			note(fmt.Sprintf("%s fmd %s %s %s %d", k.Name, a, b, c, mode), want.cls != "" || inexact,
+				map[string]string{"type": k.Name, "expr": fmt.Sprintf("%s.multiplyDivide(%s, %s, rounding: %s)", lit(k, a), lit(k, b), lit(k, c), modeNames[mode]), "observed": renderOutcome(k, got)})
+			if !got.eq(want) {
+				sum.Fail(fmt.Sprintf("fix-muldiv:%s:%s", k.Name, modeNames[mode]),
+					fmt.Sprintf("%s: %s.multiplyDivide(%s, %s, rounding: %s) = %s, required %s", k.Name, lit(k, a), lit(k, b), lit(k, c), modeNames[mode], renderOutcome(k, got), renderOutcome(k, want)),
+					map[string]any{"type": k.Name, "op": "multiplyDivide", "a": lit(k, a), "b": lit(k, b), "c": lit(k, c), "rounding": modeNames[mode], "observed": renderOutcome(k, got), "required": renderOutcome(k, want)})
+			}
+			if toCoq(force) {
+				cw.Add(fmt.Sprintf("CMulDiv %s %s %s %s %s %s %s", k.CoqKind(), modeCoq[mode], lib.Z(a), lib.Z(b), lib.Z(c), got.coq(), want.coq()),
+					map[string]any{"type": k.Name, "op": "multiplyDivide", "a": lit(k, a), "b": lit(k, b), "c": lit(k, c), "rounding": modeNames[mode], "observed": renderOutcome(k, got), "oracle": renderOutcome(k, want)})
+			}
+			if len(scripts) < 200000 {
+				scripts = append(scripts, scr{k, fmt.Sprintf("access(all) fun main(): %s { let a: %s = %s; let b: %s = %s; let c: %s = %s; return a.multiplyDivide(b, c, rounding: RoundingRule.%s) }",
+					k.Name, k.Name, lit(k, a), k.Name, lit(k, b), k.Name, lit(k, c), modeNames[mode]), got})
+			}
+		}
+	}
+	compare := func(k NKind, a, b *big.Int) {
+		x, y := k.Make(a).(interpreter.ComparableValue), k.Make(b).(interpreter.ComparableValue)
+		c := a.Cmp(b)
+		obs := []bool{bool(x.Less(c15ctx, y)), bool(x.LessEqual(c15ctx, y)), bool(x.Greater(c15ctx, y)), bool(x.GreaterEqual(c15ctx, y)),
+			x.(interpreter.EquatableValue).Equal(c15ctx, y)}
+		want := []bool{c < 0, c <= 0, c > 0, c >= 0, c == 0}
+		sum.Evaluations++
+		sum.Count(k.Name + " comparisons")
+		for i, nm := range []string{"<", "<=", ">", ">=", "=="} {
+			if obs[i] != want[i] {
+				sum.Fail(fmt.Sprintf("fix-compare:%s:%s", k.Name, nm), fmt.Sprintf("%s: %s %s %s = %v, required %v", k.Name, lit(k, a), nm, lit(k, b), obs[i], want[i]),
+					map[string]any{"type": k.Name, "op": nm, "a": lit(k, a), "b": lit(k, b), "observed": obs[i], "required": want[i]})
+			}
+		}
+	}
+	clip := func(k NKind, z *big.Int) (*big.Int, bool) { return z, k.InRange(z) }
+
+	for _, k := range fixedKinds() {
+		lat := fixedLattice(k)
+		S := k.Factor()
+		for i, a := range lat {
+			if k.Signed {
+				neg(k, a, i%3 == 0 || a.Cmp(k.Min()) == 0)
+			}
+			for j, b := range lat {
+				force := (i*31+j*17)%331 == 0
+				for _, op := range fops {
+					arith(k, op, a, b, force)
+				}
+				mod(k, a, b, force)
+				compare(k, a, b)
+			}
+		}
+		for i := 0; i < nrand; i++ {
+			a, b := randFixed(k, rng), randFixed(k, rng)
+			if i%3 == 0 { // small divisor / factor
+				b = rng.BigBetween(big.NewInt(-5), big.NewInt(5))
+				if !k.InRange(b) {
+					b.Abs(b)
+				}
+			}
+			for _, op := range fops {
+				arith(k, op, a, b, false)
+			}
+			mod(k, a, b, false)
+			compare(k, a, b)
+			if k.Signed {
+				neg(k, a, false)
+			}
+		}
+		// operand pairs whose product / quotient / sum / difference lies right at a bound
+		for i := 0; i < nstraddle; i++ {
+			a := randFixed(k, rng)
+			if a.Sign() == 0 {
+				continue
+			}
+			bound := k.Max()
+			if k.Signed && rng.Bool() {
+				bound = k.Min()
+			}
+			// a*b/S ~ bound  =>  b ~ bound*S/a
+			bq := new(big.Int).Quo(new(big.Int).Mul(bound, S), a)
+			// a*S/b ~ bound  =>  b ~ a*S/bound
+			bd := new(big.Int).Quo(new(big.Int).Mul(a, S), bound)
+			bs := new(big.Int).Sub(bound, a)
+			for _, d := range []int64{-1, 0, 1} {
+				if b, ok := clip(k, new(big.Int).Add(bq, big.NewInt(d))); ok {
+					arith(k, fops[2], a, b, i%9 == 0)
+				}
+				if b, ok := clip(k, new(big.Int).Add(bd, big.NewInt(d))); ok {
+					arith(k, fops[3], a, b, i%9 == 0)
+					mod(k, a, b, false)
+				}
+				if b, ok := clip(k, new(big.Int).Add(bs, big.NewInt(d))); ok {
+					arith(k, fops[0], a, b, false)
+				}
+				if b, ok := clip(k, new(big.Int).Neg(new(big.Int).Add(bs, big.NewInt(d)))); ok {
+					arith(k, fops[1], a, b, false)
+				}
+			}
+		}
+		// multiplyDivide: lattice triples (sampled), random triples, exact halves, straddling results
+		small := []*big.Int{}
+		for _, z := range lat {
+			if z.BitLen() <= 4 || z.Cmp(k.Max()) == 0 || z.Cmp(k.Min()) == 0 || new(big.Int).Abs(z).Cmp(S) == 0 {
+				small = append(small, z)
+			}
+		}
+		for i, a := range small {
+			for j, b := range small {
+				for l, c := range small {
+					muldiv(k, a, b, c, (i+3*j+7*l)%997 == 0)
+				}
+			}
+		}
+		for i := 0; i < ntriple; i++ {
+			a, b, c := randFixed(k, rng), randFixed(k, rng), randFixed(k, rng)
+			switch i % 5 {
+			case 0: // exact half: a = c/2, b odd
+				c = rng.BigBetween(big.NewInt(2), new(big.Int).Quo(k.Max(), big.NewInt(4)))
+				c.SetBit(c, 0, 0)
+				if c.Sign() == 0 {
+					c = big.NewInt(2)
+				}
+				a = new(big.Int).Quo(c, big.NewInt(2))
+				b = rng.BigBetween(big.NewInt(0), big.NewInt(1<<20))
+				b.SetBit(b, 0, 1)
+				if k.Signed {
+					if rng.Bool() {
+						a.Neg(a)
+					}
+					if rng.Bool() {
+						c.Neg(c)
+					}
+				}
+			case 1: // result straddles the bound: a*b/c ~ max  => c ~ a*b/max
+				a, b = lib.Pick(rng, lat), randFixed(k, rng)
+				p := new(big.Int).Mul(a, b)
+				c = new(big.Int).Quo(p, k.Max())
+				c.Add(c, big.NewInt(int64(rng.Intn(3)-1)))
+			case 2: // small divisor
+				c = rng.BigBetween(big.NewInt(-3), big.NewInt(3))
+			case 3: // lattice operands
+				a, b, c = lib.Pick(rng, lat), lib.Pick(rng, lat), lib.Pick(rng, lat)
+			}
+			if !k.InRange(a) || !k.InRange(b) || !k.InRange(c) {
+				continue
+			}
+			muldiv(k, a, b, c, false)
+		}
+	}
+	cw.Close()
+	sum.CaseFiles = cw.Files
+
+	// scripts in both engines
+	h := lib.NewHost()
+	// the known defect of the unchanged tree through a script as well
+	f128 := KindByName("Fix128")
+	picks := []scr{{f128, fmt.Sprintf("access(all) fun main(): Fix128 { let a: Fix128 = %s; return -a }", f128.Render(f128.Min())), realNeg(f128, f128.Min())}}
+	for i := 0; i < nscript; i++ {
+		picks = append(picks, scripts[rng.Intn(len(scripts))])
+	}
+	for _, c := range picks {
+		for _, vm := range []bool{false, true} {
+			out := h.RunScript(c.src, nil, vm)
+			sum.Evaluations++
+			sum.Count(fmt.Sprintf("script vm=%v", vm))
+			var got outcome
+			if out.Class != "" {
+				got = outcome{cls: out.Class}
+			} else {
+				got = outcome{z: parseNumber(out.Value.String(), c.k)}
+			}
+			if !got.eq(c.want) {
+				sum.Fail(fmt.Sprintf("fix-script:%s:vm=%v", c.k.Name, vm),
+					fmt.Sprintf("script `%s` (vm=%v) gives %s but the value method gives %s (err: %v)", c.src, vm, renderOutcome(c.k, got), renderOutcome(c.k, c.want), out.Err),
+					map[string]any{"script": c.src, "vm": vm, "observed": renderOutcome(c.k, got), "value_method": renderOutcome(c.k, c.want)})
+			}
+		}
+	}
 }
